@@ -515,6 +515,11 @@ class WorkflowRecovery:
                 return False
             upstream_stages.append(upstream)
 
+        # A branch an OR-split decided not to take is about to be skipped (its
+        # SkipStage is queued): it must not be started meanwhile.
+        if any(stage.ref_id in (u.context.get("_skipped_branches") or []) for u in upstream_stages):
+            return False
+
         # N_OF_M: check threshold
         if stage.join_type == JoinType.N_OF_M:
             threshold = stage.join_threshold
